@@ -1,48 +1,13 @@
-"""Per-property configuration for ./check (theorem lists, levels, trusted base)."""
+"""Per-property configuration for ./check: one file per property in lib/propdefs/Cxx.py defining P = {...}.
+Keys: id, level (proof|translation_validation|...), theorems (names that must be in coq/Cxx/Properties.v),
+trusted, assumptions, level_text, level_note, technique, explanation; optional: coq_deps (other coq dirs),
+claimed (False keeps the check out of MANIFEST.json), na_reason, coq_timeout, shard_timeout, harness_timeout, consts."""
+import os, glob, importlib.util
 
 PROPS = {}
-
-PROPS["C13"] = {
-    "id": "C13",
-    "level": "proof",
-    "theorems": ["leb128_u64_law", "zigzag_roundtrip", "zigzag_surjective", "zigzag_varint_law",
-                 "prefix_free_law", "prefix_free_signed_law", "seq_law", "delta_u64_law",
-                 "delta_u64_refuted", "group_varint_refuted"],
-    "trusted": ["modelled: src/io/var_int.rs (VarInt, SignedVarInt), src/io/var_int_variants.rs (all 7 strategies, single values and sequences)",
-                "spec-only (oracle, no mechanism model): none yet for data_input/data_output/endian/complex_types/smart_ptr"],
-    "assumptions": ["wrapping (release) arithmetic in the model; the checked profile's panics are observed on the real code by the harness",
-                    "agreement of model and code is established on the generated cases only"],
-    "level_text": "Machine-checked Coq theorems, for all 2^64 values / all sequences / all trailing bytes, about a Gallina restatement of the varint codecs as written (unsigned LEB128 law, zigzag bijection, prefix-free law, sequence combinator, delta law outside the recorded finding class, refutation witnesses for the two findings); the model is tied to the compiled code on every run by evaluating thousands of generated cases in Coq and comparing with the implementation, and a direct round-trip oracle runs on the implementation. Proof is the right level because the quantifier is all u64/i64 values and all sequences.",
-    "level_note": "Trusted: Coq kernel + vm_compute; the hand-written model (agreement with the code is checked on generated cases only); harness generators/oracle; wrapping arithmetic in the model. Not modelled yet: DataInput/DataOutput back ends, endian, complex_types, smart_ptr, versioned fields, simd_encoding/varint.rs.",
-    "technique": "Coq proof (induction over fuelled LEB128 loops, lia) + model/implementation differential check evaluated by vm_compute",
-    "explanation": "Unbounded Coq theorems about a Gallina restatement of the varint codecs + differential check of that model against the compiled code + direct round-trip oracle on the code.",
-}
-
-PROPS["C20"] = {
-    "id": "C20",
-    "level": "proof",
-    "theorems": ["mag_cmp_correct_thm", "decimal_strcmp_correct", "decimal_antisym", "decimal_trans"],
-    "trusted": ["modelled (M+S): src/string/numeric_compare.rs (decimal_strcmp, realnum_strcmp and helpers) as byte-list functions",
-                "spec-only cells (direct oracle against std, no mechanism model): FastStr, join*, JoinBuilder, words, SortedVecLexIterator, LineProcessor, LineSplitter, ASCII case conversion"],
-    "assumptions": ["the realnum comparator is modelled and differentially checked but its value theorem is not yet proved (exhaustive oracle up to length 3/4 stands in)",
-                    "agreement of model and code is established on the generated cases only"],
-    "level_text": "Machine-checked Coq theorems that the decimal string comparator, as written, equals comparison of the denoted integers for all strings of any length (leading zeros, signs, signed zero), returns None exactly on invalid input, and is antisymmetric and transitive; the model (decimal and real comparators) is tied to the code by evaluating thousands of cases in Coq on every run; the remaining cells (FastStr, join/split, words, lines, lexicographic iterator, case conversion, realnum value semantics) are decided by an exhaustive/generated differential oracle against std and exact integer arithmetic, which is weaker than proof and labelled S-only in the evidence.",
-    "level_note": "Trusted: Coq kernel + vm_compute; hand-written model; harness oracle (exact i128 arithmetic for numeric values, std slice/str operations). Not modelled: SIMD paths of FastStr (hash/compare), streaming iterator, SortableStrVec (shared with C10).",
-    "technique": "Coq proof (digit-string induction, nia) for the decimal comparator + model/implementation differential check by vm_compute + exhaustive small-universe oracle for the other cells",
-    "explanation": "Unbounded theorems for the decimal comparator; differential + exhaustive oracle for the rest.",
-}
-
-PROPS["C09"] = {
-    "id": "C09",
-    "level": "proof",
-    "theorems": ["field_fits_thm", "min0_get_defined", "min0_get_refuses_out_of_range", "min0_set_defined",
-                 "min0_set_get_same", "min0_set_get_other", "min0_get_build", "min0_push_back_fast", "min0_wide_refuted"],
-    "trusted": ["modelled (M+S): src/containers/uint_vec_min0.rs (compute_uintbits, compute_mem_size, get, set/set_uint_bits single-word path, new, resize, push_back all three paths, build_from_usize) with the byte vector represented as (length, little-endian number); src/containers/zip_int_vec.rs is modelled (definitions) but only oracle-checked",
-                "spec-only cells (direct oracle, no mechanism model): ZipIntVec, SortedUintVec + builder (3 presets, get/get2/get_block), IntVec<u8..u64,i8..i64> x from_slice/from_slice_bulk/from_slice_bulk_simd, UintVector build_from/push",
-                "not modelled: the byte-wise slow path of set_uint_bits (reachable only for widths > 58, which is the recorded finding)"],
-    "assumptions": ["usize is 64 bits", "agreement of model and code (incl. raw memory contents after every history) is established on the generated histories only"],
-    "level_text": "Machine-checked Coq theorems about a bit-exact Gallina model of UintVecMin0 (the packed store under ZipIntVec and the blob-store offset tables): for every width <= 58, every index and every memory content, a field never straddles the 64-bit load window, in-range reads and writes are defined and stay inside the allocation computed by compute_mem_size, a write reads back and leaves every other element unchanged, bulk build returns every element for all sequences of any length whose range fits 58 bits, in-place push_back appends without disturbing earlier elements; refutation witness for widths above 58. The model is tied to the code by replaying generated operation histories in Coq and comparing every output and the raw memory image. The other containers (SortedUintVec, IntVec, UintVector, ZipIntVec) are decided by a boundary-biased differential oracle only, labelled S-only.",
-    "level_note": "Trusted: Coq kernel + vm_compute; hand-written model; harness generators and shadow-Vec oracle. Unsafe pointer reads are modelled as index arithmetic with an explicit out-of-bounds outcome.",
-    "technique": "Coq proof by bit extensionality (N.testbit) + finite sweep lifted by lemma + induction over build; model/implementation differential check on operation histories by vm_compute; differential oracle for S-only cells",
-    "explanation": "Unbounded theorems for UintVecMin0; differential oracle for the other containers.",
-}
+_d = os.path.join(os.path.dirname(os.path.abspath(__file__)), "propdefs")
+for _f in sorted(glob.glob(os.path.join(_d, "C*.py"))):
+    _s = importlib.util.spec_from_file_location("propdef_" + os.path.basename(_f)[:-3], _f)
+    _m = importlib.util.module_from_spec(_s)
+    _s.loader.exec_module(_m)
+    PROPS[_m.P["id"]] = _m.P
